@@ -88,6 +88,16 @@ Definition spec_cols (rows : list (list Z)) : list (Z * Z) :=
 (* Part 2 — Model                                                                         *)
 (* ====================================================================================== *)
 
+(* ---------- named kernels: the decisions and index formulas that translate/gen_c11.py regenerates from the source
+   (Gen/C11.v) and Bridge/C11.v proves equal to these ---------- *)
+Definition m_ce_cond (buffer_size n : nat) : bool := (n <=? buffer_size)%nat.     (* buffer_size >= n_entries *)
+Definition m_cl_cond (n_in_chunk remaining : Z) : bool := n_in_chunk >=? remaining. (* n_lines_in_chunk >= remaining_lines *)
+Definition m_cl_after (remaining n_in_chunk : Z) : Z := remaining - n_in_chunk.    (* remaining_lines -= n_lines_in_chunk *)
+Definition m_br_cond (asize bsize : nat) : bool := (bsize <=? asize)%nat.          (* bincount_a.size >= bincount_b.size *)
+Definition m_gb_fast_test (first last : Z) : bool := first =? last.                (* np.all(keys[-1] == keys[0]) *)
+Definition m_node_cached (idx i : nat) : bool := (idx =? S i)%nat.                 (* _buffer_index == i   (idx = _buffer_index + 1) *)
+Definition m_node_pull (idx i : nat) : bool := (idx =? i)%nat.                     (* _buffer_index == i-1 *)
+
 (* ---------- streams/chunk_entries.py:_chunk_entries ---------- *)
 (* as it is at the pinned commit: ONE `if buffer_size >= n_entries` per incoming chunk *)
 Fixpoint chunk_entries_if {A} (n : nat) (buf : list A) (cs : list (list A)) : list (list A) :=
@@ -95,12 +105,12 @@ Fixpoint chunk_entries_if {A} (n : nat) (buf : list A) (cs : list (list A)) : li
   | [] => match buf with [] => [] | _ => [buf] end
   | c :: r =>
       let total := buf ++ c in
-      if (n <=? length total)%nat then firstn n total :: chunk_entries_if n (skipn n total) r
+      if m_ce_cond (length total) n then firstn n total :: chunk_entries_if n (skipn n total) r
       else chunk_entries_if n total r
   end.
 (* the proposed repair (notes/C11.fix-1.diff): `while buffer_size >= n_entries` *)
 Fixpoint drain {A} (fuel n : nat) (total : list A) : option (list (list A) * list A) :=
-  if (n <=? length total)%nat then
+  if m_ce_cond (length total) n then
     match fuel with
     | O => None                                        (* out of fuel: distinct from every normal result *)
     | S f => match drain f n (skipn n total) with
@@ -134,7 +144,7 @@ Definition chunk_entries {A} (n : nat) (cs : list (list A)) : option (list (list
 (* inner `while n_lines_in_chunk >= remaining_lines` *)
 Fixpoint lines_drain {A} (fuel : nat) (n : Z) (cur chunk : list A) (remaining : Z)
   : option (list (list A) * list A * list A * Z) :=
-  if len chunk >=? remaining then
+  if m_cl_cond (len chunk) remaining then
     match fuel with
     | O => None
     | S f =>
@@ -151,7 +161,7 @@ Fixpoint chunk_lines_go {A} (n : Z) (cur : list A) (remaining : Z) (cs : list (l
       match lines_drain (S (length c)) n cur c remaining with
       | None => None
       | Some (o, cur', c', rem') =>
-          match chunk_lines_go n (cur' ++ c') (rem' - len c') r with
+          match chunk_lines_go n (cur' ++ c') (m_cl_after rem' (len c')) r with
           | Some o' => Some (o ++ o')
           | None => None
           end
@@ -174,7 +184,7 @@ Fixpoint add_prefix (long short : list Z) : list Z :=
   | [], _ => []
   end.
 Definition bincount_reduce (a b : list Z) : list Z :=
-  if (length b <=? length a)%nat then add_prefix a b else add_prefix b a.
+  if m_br_cond (length a) (length b) then add_prefix a b else add_prefix b a.
 Definition reduce1 {A} (f : A -> A -> A) (l : list A) : option A :=
   match l with [] => None | h :: t => Some (fold_left f t h) end.
 Definition stream_bincount (cs : list (list Z)) : option (list Z) :=
@@ -207,7 +217,7 @@ Fixpoint zip_bounds (b : list Z) : list (Z * Z) :=
   match b with s :: ((e :: _) as r) => (s, e) :: zip_bounds r | _ => [] end.
 (* one chunk; [fast] = the keys are of a kind for which the first-equals-last shortcut is tried *)
 Definition groupby_chunk {A} (fast : bool) (keys : list Z) (data : list A) : list (Z * list A) :=
-  if fast && (nthZ keys 0 =? nthZ keys (len keys - 1)) then [(nthZ keys 0, skipn 0 data)]
+  if fast && m_gb_fast_test (nthZ keys 0) (nthZ keys (len keys - 1)) then [(nthZ keys 0, skipn 0 data)]
   else
     let changes := (0 :: get_changes keys) ++ [len data] in
     map (fun '(s, e) => (nthZ keys s, slice s e data)) (zip_bounds changes).
@@ -278,9 +288,9 @@ Fixpoint get_buffer {V} (fuel : nat) (g : list (node V)) (st : list (nstate V)) 
   | S fuel' =>
       match nth_error g k, nth_error st k with
       | Some nd, Some s =>
-          if (ns_idx s =? S i)%nat then
+          if m_node_cached (ns_idx s) i then
             match ns_cur s with Some v => ROk (st, v) | None => RAssert end
-          else if (ns_idx s =? i)%nat then
+          else if m_node_pull (ns_idx s) i then
             match nd with
             | NStream _ =>
                 match ns_rest s with
